@@ -259,9 +259,8 @@ func Payload(v entities.InfoElementWithValue) (p []byte, err error) {
 		if len(ip) == 16 {
 			return append([]byte{}, ip...), nil
 		}
-		if ip16 := ip.To16(); ip16 != nil {
-			return append([]byte{}, ip16...), nil
-		}
+		// an ipv6Address value is 16 octets ("4/16/6 raw bytes for addresses", "every field taken from its full
+		// encoded width"): the 4-octet form net.IP also knows for IPv4-mapped addresses is a different value
 		return append([]byte{}, ip...), fmt.Errorf("ipv6Address element holds a %d-byte value", len(ip))
 	}
 	return nil, fmt.Errorf("unsupported data type %d", v.GetDataType())
